@@ -22,6 +22,7 @@ def _k():
 def _panel():
     import jax
     import jax.numpy as jnp
+    import numpy as np
 
     import flowjax.bijections as B
     import flowjax.distributions as D
@@ -47,6 +48,28 @@ def _panel():
         "Affine_neg_scale": lambda: B.Affine(0.0, -1.0),
         "Affine_zero_scale": lambda: B.Affine(jnp.zeros(2), jnp.array([1.0, 0.0])),
         "Scale_neg": lambda: B.Scale(jnp.array([-1.0])),
+        # the same classes in other ARGUMENT FORMS (numpy / python scalars / float64 / batched with one bad entry / -0.0)
+        "Normal_np_neg_scale": lambda: D.Normal(np.zeros(2), np.array([1.0, -1.0])),
+        "Normal_int_zero_scale": lambda: D.Normal(0, 0),
+        "Normal_negzero_scale": lambda: D.Normal(0.0, -0.0),
+        "Normal_f64_tiny_neg_scale": lambda: D.Normal(np.float64(0.0), np.float64(-1e-30)),
+        "Normal_matrix_one_zero": lambda: D.Normal(jnp.zeros((2, 2)), jnp.array([[1.0, 2.0], [0.0, 1.0]])),
+        "StudentT_vec_one_neg_df": lambda: D.StudentT(jnp.array([3.0, -1.0])),
+        "StudentT_np_zero_df": lambda: D.StudentT(np.array(0.0)),
+        "Uniform_vec_one_reversed": lambda: D.Uniform(jnp.array([0.0, 1.0]), jnp.array([1.0, 0.5])),
+        "Uniform_vec_one_equal": lambda: D.Uniform(jnp.array([0.0, 1.0]), jnp.array([1.0, 1.0])),
+        "Uniform_int_equal": lambda: D.Uniform(1, 1),
+        "Mixture_np_tiny_neg_weight": lambda: D.VmapMixture(jax.vmap(D.Normal)(jnp.arange(2.0)), weights=np.array([2.0, -1e-6])),
+        "Permute_np_duplicate": lambda: B.Permute(np.array([1, 1])),
+        "Permute_negative_index": lambda: B.Permute(jnp.array([0, -1, 1])),
+        "Permute_2d_duplicate": lambda: B.Permute(jnp.array([[0, 1], [1, 1]])),
+        "Scale_vec_one_zero": lambda: B.Scale(jnp.array([1.0, 0.0])),
+        "Scale_int_neg": lambda: B.Scale(-2),
+        "Affine_np_neg_scale": lambda: B.Affine(np.zeros(2), np.array([1.0, -1.0])),
+        "TriangularAffine_zero_diag": lambda: B.TriangularAffine(jnp.zeros(2), jnp.array([[1.0, 0.0], [0.5, 0.0]])),
+        "TriangularAffine_neg_diag": lambda: B.TriangularAffine(jnp.zeros(2), jnp.array([[1.0, 0.0], [0.5, -1.0]])),
+        "Gumbel_vec_one_zero_scale": lambda: D.Gumbel(jnp.zeros(2), jnp.array([0.0, 1.0])),
+        "LogNormal_zero_scale": lambda: D.LogNormal(0.0, 0.0),
     }
 
 
@@ -85,7 +108,12 @@ PANEL_NAMES = sorted(_n for _n in (
     "Normal_neg_scale", "Normal_zero_scale", "Normal_vec_one_neg", "LogNormal_neg_scale", "Cauchy_neg_scale", "Gumbel_neg_scale",
     "Laplace_neg_scale", "Logistic_neg_scale", "StudentT_neg_df", "StudentT_zero_df", "StudentT_neg_scale", "Uniform_reversed",
     "Uniform_equal", "Mixture_zero_weight", "Mixture_neg_weight", "Permute_duplicate", "Permute_out_of_range", "Affine_neg_scale",
-    "Affine_zero_scale", "Scale_neg"))
+    "Affine_zero_scale", "Scale_neg",
+    "Normal_np_neg_scale", "Normal_int_zero_scale", "Normal_negzero_scale", "Normal_f64_tiny_neg_scale", "Normal_matrix_one_zero",
+    "StudentT_vec_one_neg_df", "StudentT_np_zero_df", "Uniform_vec_one_reversed", "Uniform_vec_one_equal", "Uniform_int_equal",
+    "Mixture_np_tiny_neg_weight", "Permute_np_duplicate", "Permute_negative_index", "Permute_2d_duplicate", "Scale_vec_one_zero",
+    "Scale_int_neg", "Affine_np_neg_scale", "TriangularAffine_zero_diag", "TriangularAffine_neg_diag", "Gumbel_vec_one_zero_scale",
+    "LogNormal_zero_scale"))
 FAIL_OPS = ["fail_planar_flow_cond_without_mlp_sizes", "fail_coupling_flow_bad_transformer", "fail_maf_bad_transformer",
             "fail_chain_shape_mismatch", "fail_method_wrong_shape", "fail_fit_bad_val_prop", "fail_log_prob_wrong_shape",
             "fail_concatenate_mismatch", "fail_reshape_element_count"]
